@@ -15,6 +15,11 @@ class CachedDataset(Dataset):
             sample = self.transform(sample)
         return sample
 
+    def __getitems__(self, indices):
+        # torch dataloaders fetch batches via __getitems__ if the dataset has it -> without this method, __getattr__ would
+        # hand out the __getitems__ of the wrapped dataset (e.g. of a torch Subset), which bypasses cache and transform
+        return [self[idx] for idx in indices]
+
     def __len__(self):
         return len(self.dataset)
 
